@@ -1510,3 +1510,105 @@ fn emit_behind_blocked_flush(case: &BlockedFlushCase, mut rx: Rx, path: PathBuf,
         classes: vec![if flush_blocked && emit_waiting { "flush blocked inside the sink, emit waiting behind it" } else { "flush did not block" }],
     }
 }
+
+
+// ---------------------------------------------------------------------------
+// C14: "identical when read through a wrapping queuing sink" — also while the bounded
+// queue is rejecting metrics (which never reach the socket)
+
+#[derive(Serialize, Deserialize, Clone, Debug)]
+pub struct QueueStatsCase {
+    pub cap: u8,
+    pub extra: u8,
+    pub buffered: bool,
+}
+
+pub struct QueueStatsIdentity;
+
+impl Campaign for QueueStatsIdentity {
+    type Case = QueueStatsCase;
+    fn name(&self) -> &'static str {
+        "queue-stats-identity"
+    }
+    fn max_shrink_iters(&self) -> u32 {
+        10
+    }
+    fn strategy(&self, _tier: Tier) -> BoxedStrategy<QueueStatsCase> {
+        (1u8..5, 1u8..6, any::<bool>()).prop_map(|(cap, extra, buffered)| QueueStatsCase { cap, extra, buffered }).boxed()
+    }
+    fn check(&self, case: &QueueStatsCase, ctx: &Ctx) -> Outcome {
+        use crate::queue::gate::{Gate, GatedForward, StepOut};
+        let w = ctx.w();
+        let rx = match Rx::new(Transport::Unix) {
+            Ok(r) => r,
+            Err(e) => {
+                util::mark_inconclusive(&e.to_string());
+                return Outcome::ok();
+            }
+        };
+        let sc = SockCase {
+            transport: Transport::Unix,
+            buffered: if case.buffered { Some(Some(64)) } else { None },
+            nonblocking: true,
+            queued: false,
+            addr_form: 0,
+            ops: vec![],
+        };
+        let inner = match build_sink(&sc, &rx) {
+            Ok(s) => s,
+            Err(e) => {
+                util::mark_inconclusive(&e);
+                return Outcome::ok();
+            }
+        };
+        let gate = Gate::new();
+        let q = QueuingMetricSink::with_capacity(GatedForward { gate: gate.clone(), inner: BoxSink(inner) }, case.cap as usize);
+        let mut bad: Vec<String> = Vec::new();
+        let mut accepted: Vec<String> = Vec::new();
+        let mut rejected = 0usize;
+        // the worker blocks on the first metric; cap more fit into the queue; the rest is rejected
+        for i in 0..(1 + case.cap as usize + case.extra as usize) {
+            let m = format!("q{}:1|c", i);
+            match q.emit(&m) {
+                Ok(_) => accepted.push(m),
+                Err(_) => rejected += 1,
+            }
+            if i == 0 {
+                let _ = gate.wait_until(w, |g| g.entered >= 1);
+            }
+        }
+        let s = q.stats();
+        if s.packets_sent != 0 || s.bytes_sent != 0 || s.packets_dropped != 0 || s.bytes_dropped != 0 {
+            bad.push(format!(
+                "nothing has been handed to the socket yet ({} metrics queued, {} rejected by the queue), but stats() read through the queuing sink = sent {}/{} B dropped {}/{} B",
+                accepted.len(), rejected, s.packets_sent, s.bytes_sent, s.packets_dropped, s.bytes_dropped
+            ));
+        }
+        gate.set_open(Some(StepOut::Ok));
+        let want = accepted.len();
+        if !gate.wait_until(w, |g| g.exited >= want) {
+            bad.push("queued metrics did not reach the socket sink within W".into());
+        }
+        let _ = q.flush();
+        std::thread::sleep(Duration::from_millis(1));
+        let got = rx.recv_all(false);
+        let s = q.stats();
+        let (pk, by) = (got.len() as u64, got.iter().map(|d| d.len() as u64).sum::<u64>());
+        if bad.is_empty() && (s.packets_sent, s.bytes_sent, s.packets_dropped, s.bytes_dropped) != (pk, by, 0, 0) {
+            bad.push(format!(
+                "{} datagrams / {} B arrived and no send failed ({} metrics had been rejected by the queue before reaching the socket), but stats() = sent {}/{} B dropped {}/{} B",
+                pk, by, rejected, s.packets_sent, s.bytes_sent, s.packets_dropped, s.bytes_dropped
+            ));
+        }
+        drop(q);
+        Outcome {
+            verdict: match bad.first() {
+                None => Ok(()),
+                Some(b) => Err(b.clone()),
+            },
+            nontrivial: rejected > 0,
+            fingerprint: util::hash_json(case),
+            classes: vec!["telemetry through a bounded queuing sink that rejects metrics"],
+        }
+    }
+}
